@@ -173,13 +173,15 @@ PROPS = {
                    'independent batch (Gauss-Markov) solution']),
     'C12': dict(
         rules=[layout.est_rules, sensor.sm_accum, sensor.sm_sign,
-               lambda c: sched.sched_handover(c, (sched.FB,))],
+               lambda c: sched.sched_handover(c, (sched.FB,)), kal.q_psd],
         decided=['both filters reset both sensor models before any use (re-run reproducibility)',
                  'feedback effects (set_pva, update_estimates, correct) only inside the '
                  'measurement-due block: with no epoch in the span the loop is plain integration '
                  'of corrected increments with reset (neutral) estimates',
                  'each consumer of the error vector receives its own block',
-                 'estimates enter the correction with the sign opposite to their attribution'],
+                 'estimates enter the correction with the sign opposite to their attribution',
+                 'covariance is propagated over the interval that was actually integrated (end time '
+                 'read from the integrator after the batch), as in the feedforward filter'],
         undecided=['bit-identity with plain integration (floating point: solve(I, v - 0*dt))',
                    'second-order agreement with the feedforward filter']),
     'C16': dict(
